@@ -493,3 +493,63 @@ Theorem contrast_sum_scalar :
   ~ c_dof (c_add (c1 (1, 1, 1)) (c1 (1, 1, 1))) == 3.
 Proof. split; [exact c_sum_scalar|exact c_sum_three_not_first_plus_last]. Qed.
 Print Assumptions contrast_sum_scalar.
+
+(* ================================================================== voxel grids *)
+From NV.C06 Require Import ModelGrid ProofsGrid.
+
+(* (G1) `variance.reshape([dim**2] + grid)[::dim+1]` IS the diagonal, for EVERY dim and every
+   dim x dim array whose entries are numbers (one voxel) or whole voxel arrays (any grid shape):
+   entry i of the strided selection is variance[i, i] - the formerly sampled-only
+   `stride = diagonal` step of the tmin-conjunction statistic. *)
+Theorem tmin_stride_trick_is_diagonal :
+  forall (A : Type) (d : A) (dim : nat) (V : list (list A)),
+  List.length V = dim -> (forall r, In r V -> List.length r = dim) ->
+  vdiag_blocks dim V = diag_spec d dim V /\
+  List.length (vdiag_blocks dim V) = dim /\
+  forall i, (i < dim)%nat -> nth i (vdiag_blocks dim V) d = nth i (nth i V []) d.
+Proof.
+  intros A d dim V HV Hrows. pose proof (vdiag_blocks_is_diag A d dim V HV Hrows) as E.
+  split; [exact E|]. rewrite E. unfold diag_spec. split.
+  - now rewrite map_length, seq_length.
+  - intros i Hi. now rewrite nth_map_seq_gen.
+Qed.
+Print Assumptions tmin_stride_trick_is_diagonal.
+
+(* (G2) on a voxel array of ANY shape (v = C-order index of the voxel, nvox = number of voxels)
+   the conjunction statistic computed on the whole array is, voxel by voxel, the one-voxel
+   statistic g_tmin of effect[:, v] and variance[:, :, v], and the variance that divides row i
+   at voxel v is variance[i, i, v]: no voxel is exchanged with another one (the grid shape does
+   not enter).  Generic in the number type (holds at Q and at R). *)
+Theorem tmin_grid_is_voxelwise :
+  forall (F : Type) (Op : ops F) (d : F) E V b tiny nvox,
+  (forall v, (v < nvox)%nat ->
+     nth v (g_tmin_grid Op d E V b tiny nvox) None =
+     g_tmin Op (voxel_col d v E) (voxel_slice d v V) b tiny) /\
+  (forall v dim, List.length V = dim -> (forall r, In r V -> List.length r = dim) ->
+     forall i, (i < dim)%nat ->
+     nth i (vdiag dim (voxel_slice d v V)) d = nth v (nth i (nth i V []) []) d).
+Proof.
+  intros F Op d E V b tiny nvox. split.
+  - intros v Hv. now apply tmin_grid_voxelwise.
+  - intros v dim HV Hrows i Hi. now apply vdiag_voxel_entry.
+Qed.
+Print Assumptions tmin_grid_is_voxelwise.
+
+(* (G3) selecting a voxel commutes with the stride trick (unconditional) *)
+Theorem tmin_stride_commutes_with_voxel_selection :
+  forall (F : Type) (d : F) v dim (V : list (list (list F))),
+  vdiag dim (voxel_slice d v V) = voxel_col d v (vdiag_blocks dim V).
+Proof. exact vdiag_voxel_slice. Qed.
+Print Assumptions tmin_stride_commutes_with_voxel_selection.
+
+(* non-vacuity: a 2 x 2 contrast on a 2 x 2 voxel grid (blocks = the four voxels in C order):
+   the selected blocks are V[0][0] and V[1][1] with their voxels in place; taking the voxels of
+   the transposed grid (what `np.diagonal(variance).T` does) is a different array. *)
+Example tmin_grid_example :
+  vdiag_blocks 2 [[[1; 2; 3; 4]; [0; 0; 0; 0]]; [[9; 9; 9; 9]; [5; 6; 7; 8]]]%nat
+    = [[1; 2; 3; 4]; [5; 6; 7; 8]]%nat /\
+  vdiag 2 (voxel_slice 0%nat 1 [[[1; 2; 3; 4]; [0; 0; 0; 0]]; [[9; 9; 9; 9]; [5; 6; 7; 8]]]%nat) = [2; 6]%nat /\
+  vdiag_blocks 2 [[[1; 2; 3; 4]; [0; 0; 0; 0]]; [[9; 9; 9; 9]; [5; 6; 7; 8]]]%nat
+    <> [[1; 3; 2; 4]; [5; 7; 6; 8]]%nat /\
+  vdiag 3 [[1; 2; 3]; [4; 5; 6]; [7; 8; 9]]%nat = [1; 5; 9]%nat.
+Proof. repeat split; try reflexivity. intros H; discriminate H. Qed.
